@@ -9,6 +9,13 @@ package main
 // of the language of Model/SizeProg.v. The driver compares it with canon_size of the schema (SIZEPROG lines), and runs it with the
 // Coq interpreter on sample values against proto.Size of the linked code (SIZERUN lines).
 //
+// Case lines (evaluated by driver/sizeprog_eval.ml, which also documents the text form of programs):
+//	SIZEPROG  <set> <msg idx> <k>    = k-th top-level statement of the translated program   (model: the k-th statement of canon_size)
+//	SIZEPROG  <set> <msg idx> len    = number of top-level statements | untranslatable:<file>:<line>:<col>:<why>
+//	@SIZEDEF  <set> <msg idx> <prog> = ok          context line: the whole translated program, remembered by every driver shard
+//	SIZEPROG  <set> <msg idx> eqb    = same        (model: prog_eqb <translated> (canon_size sch idx))
+//	SIZERUN   <set> <msg idx> <VAL>  = proto.Size  (model: run_size sch idx <translated> VAL)
+//
 // The translator knows a fixed list of statement and expression shapes; anything else makes the message "untranslatable" (reported
 // as the observed value of its SIZEPROG line, hence a mismatch). What is matched literally, token by token: the prologue (x :=
 // input.Message.Interface().(*T); if x == nil {return Size 0}; options; var n, l), the final return of Size: n, the `if x == nil
